@@ -637,13 +637,12 @@ def trace_run(chk, pid, n=None):
     with mp.get_context('fork').Pool(min(16, os.cpu_count() or 1)) as pool:
         sessions = pool.map(record_session, [(i, chk.seed * 1000003 + i) for i in range(n)], chunksize=16)
     recs = [r for s in sessions for r in s]
-    # negative control: one more session whose last step reports the events in another order
-    ctl = [dict(r, sid=n) for r in sessions[0][:2]]
-    if len(ctl[1].get('rows', [])) >= 2 and ctl[1]['out'] == 'ok':
-        ctl[1] = dict(ctl[1], rows=ctl[1]['rows'][1:] + ctl[1]['rows'][:1])
-    else:
-        ctl[1] = dict(ctl[1], input_same=False)
-    recs += ctl
+    # negative control (made up, independent of the library): a faultless start record, then a step `o[1:]` recorded
+    # with two events in the wrong order - the trace specification must reject exactly that line
+    okcols = [{'ch': c, 'us': [0], 'rus': [0]} for c in range(1, 5)]
+    base = {'sid': n, 'iu': 0, 'out': 'ok', 'cols': okcols, 'meta_ok': True, 'input_same': True, 'dup_equal': True}
+    recs += [dict(base, k=0, op='start', A=[], rows=[1, 2, 3, 4, 5, 6]),
+             dict(base, k=1, op='rows', A=[1], sp='pos', rows=[3, 2, 4, 5, 6])]
     tf = os.path.join(tlc.scratch('sesstr_'), 'trace.ndjson')
     with open(tf, 'w') as f:
         for r in recs:
@@ -654,14 +653,19 @@ def trace_run(chk, pid, n=None):
         raise tlc.MachineryError('Trace_Session failed: ' + (res.error_text or res.stdout[-2000:]))
     chk.add_tlc(res, 'Trace_Session')
     rejects = {int(m.group(1)): m.group(2) for m in re.finditer(r'<<"REJECT", (\d+), "([^"]+)">>', res.stdout)}
-    chk.negative_control(len(recs) in rejects, 'Trace_Session accepted a session with a corrupted record')
+    chk.negative_control(rejects.get(len(recs)) == 'rows.rows' and (len(recs) - 1) not in rejects,
+                         'Trace_Session does not reject (exactly) the record with two events in the wrong order')
     rejects.pop(len(recs), None)
     foreign = 0
     for ln, verdict in sorted(rejects.items()):
         rec = recs[ln - 1]
         op, _, clause = verdict.partition('.')
-        if op in ('start', 'driver'):
+        if op == 'driver':
             raise tlc.MachineryError('Trace_Session: %s at line %d: %r' % (verdict, ln, rec))
+        if op == 'start':
+            # the session's first sample is not what the specification starts from: an all-RFI start is the conversion of
+            # every channel of the loaded sample; a raw start is the loaded sample itself (values and metadata of the file)
+            op = 'rfi_all' if rec['iu'] == 1 else 'pick'
         props = {'C13'} if clause == 'input' else {'C20'} if clause == 'dup' else props_of(op, TRACE_FIELD[clause])
         sess = [[r['op'], r['A'], r.get('sp', 'pos')] for r in sessions[rec['sid']][1:rec['k'] + 1]]
         if pid in props:
